@@ -373,6 +373,10 @@ class ApplyLayoutCastMemrefGlobal(RewritePattern):
         if not isinstance(global_op, memref.GlobalOp):
             return
 
+        # the data of a global that already has a layout is not in row-major order anymore
+        if not isinstance(const_source.memref.type.layout, builtin.NoneAttr):
+            return
+
         # apply transformation
         if isa(
             global_op.initial_value, DenseIntOrFPElementsAttr[builtin.AnyDenseElement]
